@@ -4,6 +4,7 @@ import (
 	"go/token"
 	"go/types"
 	"sort"
+	"strings"
 
 	"golang.org/x/tools/go/ssa"
 
@@ -52,6 +53,7 @@ func (e *Env) resolveSched() *Sched {
 		}
 		return s
 	}
+	e.schedFields()
 	sp := e.P.Pkg(schedRel)
 	var launches []*ssa.Go
 	for f := range e.P.Funcs {
@@ -326,7 +328,156 @@ func (s *Sched) isHandlerNode(v ssa.Value) bool {
 			return false
 		}
 		p, ok := s.e.C.PathOf(lk.X)
-		return ok && p.Suffix("handlers")
+		return ok && p.Suffix(s.e.schedFields().Handlers)
 	}}
 	return fl.All(v)
+}
+
+// inlinedWithGo: the inlined set of root together with the functions it starts
+// as goroutines (`go obj.method(args)`) and their inlined sets; the value says
+// whether the function runs in such a goroutine.
+func (e *Env) inlinedWithGo(root *ssa.Function) map[*ssa.Function]bool {
+	out := map[*ssa.Function]bool{}
+	var add func(f *ssa.Function, async bool, depth int)
+	add = func(f *ssa.Function, async bool, depth int) {
+		for g := range e.inlinedSet(f, nil) {
+			if _, seen := out[g]; seen {
+				continue
+			}
+			out[g] = async
+			if depth > 3 {
+				continue
+			}
+			for _, h := range ir.WithClosures(g) {
+				for _, b := range h.Blocks {
+					for _, in := range b.Instrs {
+						if gi, ok := in.(*ssa.Go); ok {
+							if c := gi.Call.StaticCallee(); c != nil && c.Parent() == nil && e.P.Funcs[c] {
+								add(c, true, depth+1)
+							}
+						}
+					}
+				}
+			}
+		}
+	}
+	add(root, false, 0)
+	return out
+}
+
+func boolSet(m map[*ssa.Function]bool) map[*ssa.Function]bool {
+	out := map[*ssa.Function]bool{}
+	for f := range m {
+		out[f] = true
+	}
+	return out
+}
+
+// handlerRunner: by role, the function of the scheduler package that the
+// scheduling function calls, after all workers were awaited, on a node taken
+// from the handler table, and that reaches Execute.
+func (s *Sched) handlerRunner() *ssa.Function {
+	e := s.e
+	var found *ssa.Function
+	for _, lf := range sortedFns(s.LoopFns) {
+		for _, b := range lf.Blocks {
+			for _, in := range b.Instrs {
+				c, ok := in.(*ssa.Call)
+				if !ok || c.Call.StaticCallee() == nil || !e.P.Funcs[c.Call.StaticCallee()] {
+					continue
+				}
+				g := c.Call.StaticCallee()
+				// not the node's own operations (Execute, set-up ...): the scheduler-level runner
+				if g == s.Execute || (g.Signature.Recv() != nil && strings.HasSuffix(ir.NamedType(g.Signature.Recv().Type()), ".Node")) {
+					continue
+				}
+				if !e.ReachesRepo(g, func(x *ssa.Function) bool { return x == s.Execute }) {
+					continue
+				}
+				for _, a := range c.Call.Args {
+					if s.isHandlerNode(ir.Deep(a)) && (found == nil || lf == s.Loop || !s.LoopFns[found]) {
+						found = g
+					}
+				}
+			}
+		}
+	}
+	return found
+}
+
+// errSource classifies an error value by the node operation it comes from: the
+// result of a call through which Execute ("exec"), the node's set-up ("setup")
+// or its tear-down ("teardown") is reached - the narrowest that applies.
+func (s *Sched) errSource(v ssa.Value) string {
+	e := s.e
+	c, ok := ir.Deep(v).(*ssa.Call)
+	if !ok {
+		if ex, isE := ir.Deep(v).(*ssa.Extract); isE {
+			c, ok = ex.Tuple.(*ssa.Call)
+		}
+		if !ok {
+			return ""
+		}
+	}
+	g := c.Call.StaticCallee()
+	if g == nil {
+		return ""
+	}
+	nr := e.nodeRoles()
+	reaches := func(t *ssa.Function) bool {
+		return t != nil && (g == t || e.ReachesRepo(g, func(x *ssa.Function) bool { return x == t }))
+	}
+	switch {
+	case reaches(s.Execute):
+		return "exec"
+	case nr != nil && reaches(nr.Setup):
+		return "setup"
+	case nr != nil && reaches(nr.Teardown):
+		return "teardown"
+	}
+	return ""
+}
+
+// evCase is one constant a status store can write, with the conditions under
+// which it writes it.
+type evCase struct {
+	K    int64
+	Lits []ir.NLit
+}
+
+// cases returns what a status store writes: its constant under the dominating
+// conditions of the store, or - for a value chosen beforehand (`st := Success;
+// if err != nil { st = Error }; n.setStatus(st)`) - each φ-alternative under the
+// conditions of its edge as well.
+func (s *Sched) cases(ev ir.StoreEvent) ([]evCase, bool) {
+	base := s.e.DCS(ev.Site)
+	if k, ok := s.constOf(ev); ok {
+		return []evCase{{k, base}}, true
+	}
+	if ev.Val == nil {
+		return nil, false
+	}
+	var out []evCase
+	var walk func(v ssa.Value, lits []ir.NLit, depth int) bool
+	walk = func(v ssa.Value, lits []ir.NLit, depth int) bool {
+		v = ir.Deep(v)
+		if k, ok := ir.ConstInt(v); ok {
+			out = append(out, evCase{k, lits})
+			return true
+		}
+		ph, isPhi := v.(*ssa.Phi)
+		if !isPhi || depth > 4 {
+			return false
+		}
+		for i, ed := range ph.Edges {
+			if !walk(ed, append(append([]ir.NLit{}, lits...), s.e.DCSPhiEdge(ph.Block(), i)...), depth+1) {
+				return false
+			}
+		}
+		return len(ph.Edges) > 0
+	}
+	if !walk(ev.Val, base, 0) {
+		return nil, false
+	}
+	return out, true
 }
